@@ -172,7 +172,66 @@ def after_color_layers_section(ctx):
                              "%s reported %r, which are not names of the glyph set" % (fname, sorted(modified - set(after) - set(before))))
 
 
+def designspace_prefilter_section(ctx):
+    """the interpolatable pre-processor driven by a designspace (glyphs the masters lack come from the instantiator): a lib
+    filter that edits glyphs it reaches THROUGH the interpolated layers -- anchor propagation on `aacute -> a.alt = contour +
+    component a` -- works on the copied glyph sets, whatever ran before it: no skip list, a skip list that prunes something, a
+    STALE skip list (it names no glyph, the pruning reports nothing).  The sources stay as they were and the copies get the
+    anchors"""
+    import ufo2ft
+    from harness import dsgen
+    from ufo2ft.preProcessor import TTFInterpolatablePreProcessor, OTFInterpolatablePreProcessor
+    from ufo2ft.instantiator import Instantiator
+    rng = ctx.subrng("ds-prefilter")
+    box = lambda x0, y0, x1, y1: [(Fr(x0), Fr(y0), "line"), (Fr(x1), Fr(y0), "line"), (Fr(x1), Fr(y1), "line"), (Fr(x0), Fr(y1), "line")]
+    one = (Fr(1), Fr(0), Fr(0), Fr(1))
+    for i in range(ctx.budget(12, 24)):
+        lib = ["ufoLib2", "defcon"][i % 2]
+        skipkind = ["stale", "none", "prunes", "stale"][(i // 2) % 4]
+        how = ["TTFInterpolatablePreProcessor", "OTFInterpolatablePreProcessor", "compileInterpolatableTTFsFromDS"][(i // 8) % 3]
+
+        def master(k):
+            w = 60 * k
+            gl = [{"name": "a", "unicodes": [0x61], "width": Fr(500 + w), "contours": [box(50, 0, 400 + w, 500)], "components": [],
+                   "anchors": [("top", Fr(250), Fr(520)), ("bottom", Fr(250), Fr(-10))]},
+                  {"name": "acutecomb", "unicodes": [0x301], "width": Fr(0), "contours": [box(-50, 550, 50, 650 + w)], "components": [], "anchors": [("_top", Fr(0), Fr(520))]},
+                  {"name": "a.alt", "unicodes": [], "width": Fr(500 + w), "contours": [box(400, 0, 480 + w, 60)], "components": [("a", one + (Fr(0), Fr(0)))], "anchors": []},
+                  {"name": "aacute", "unicodes": [0xE1], "width": Fr(500 + w), "contours": [], "anchors": [],
+                   "components": [("a.alt", one + (Fr(0), Fr(0))), ("acutecomb", one + (Fr(250), Fr(0)))]},
+                  {"name": "part", "unicodes": [], "width": Fr(300), "contours": [box(0, 0, 100 + w, 100)], "components": [], "anchors": []}]
+            return {"glyphs": gl, "glyphOrder": [g["name"] for g in gl], "kerning": {}, "groups": {}, "features": "",
+                    "lib": {"com.github.googlei18n.ufo2ft.filters": [{"name": "propagateAnchors", "pre": True}]},
+                    "info": {"familyName": "Fam", "styleName": "Master%d" % k, "unitsPerEm": 1000, "ascender": 800, "descender": -200}}
+        masters = [master(0), master(2)]
+        ds, fonts = dsgen.make_designspace(rng, masters, lib, instances=False)
+        skip = {"stale": ["_part.removed"], "none": [], "prunes": ["part"]}[skipkind]
+        if skip:
+            ds.lib["public.skipExportGlyphs"] = list(skip)
+        case = {"how": how, "lib": lib, "skip_list": skip, "skip_kind": skipkind, "font": jsonable(masters[0])}
+        ctx.count(); ctx.klass("designspace pre-filter: %s, skip list %s" % (how, skipkind)); ctx.nontriv(("dspf", i, ctx.scale))
+        try:
+            src0 = [snap.font_snapshot(f) for f in fonts]
+            if how.endswith("PreProcessor"):
+                cls = TTFInterpolatablePreProcessor if how.startswith("TTF") else OTFInterpolatablePreProcessor
+                gsets = cls(fonts, skipExportGlyphs=skip, instantiator=Instantiator.from_designspace(ds, round_geometry=False)).process()
+                got = [[(a.name, a.x, a.y) for a in gs["a.alt"].anchors] for gs in gsets]
+            else:
+                ufo2ft.compileInterpolatableTTFsFromDS(ds)
+                got = None
+            src1 = [snap.font_snapshot(f) for f in fonts]
+        except Exception as e:
+            ctx.spec_failure(case, "%s raised %s: %s\n%s" % (how, type(e).__name__, e, traceback.format_exc()[-1000:]))
+            continue
+        if src0 != src1:
+            diff = [k for k in range(len(fonts)) if src0[k] != src1[k]]
+            ctx.spec_failure(dict(case, masters_changed=diff), "a lib filter run by %s wrote to the source font(s) %r" % (how, diff))
+        if got is not None and any(sorted(n for n, _x, _y in g) != ["bottom", "top"] for g in got):
+            ctx.spec_failure(dict(case, anchors_of_a_alt=got), "the copies of 'a.alt' that the pre-processor returns carry the anchors %r; the "
+                             "propagation gives it top and bottom (from its component a) in every master" % got)
+
+
 def explore(ctx):
+    designspace_prefilter_section(ctx)
     after_color_layers_section(ctx)
     from ufo2ft.util import _GlyphSet
     rng = ctx.subrng("filters")
